@@ -20,6 +20,7 @@ void TimeZone::printTo(Print& printer) const {
       return;
     case kTypeBasic:
     case kTypeExtended:
+      mZoneProcessor->setZoneInfo(mZoneInfo);
       mZoneProcessor->printTo(printer);
       return;
     case kTypeBasicManaged:
@@ -51,6 +52,7 @@ void TimeZone::printShortTo(Print& printer) const {
       return;
     case kTypeBasic:
     case kTypeExtended:
+      mZoneProcessor->setZoneInfo(mZoneInfo);
       mZoneProcessor->printShortTo(printer);
       return;
     case kTypeBasicManaged:
